@@ -13,6 +13,7 @@
 import json
 import os
 import random
+import time
 from concurrent.futures import ThreadPoolExecutor
 
 from vlib import core
@@ -68,7 +69,7 @@ def run_driver(chk, bindir, cases, tag):
     return outs
 
 
-def judge(chk, cases, outs, tag, batch=6000, workers=4):
+def judge(chk, cases, outs, tag, batch=6000, workers=4, par=2):
     """TLC judges every recorded run.  Returns (bad indices, set of conforming indices)."""
     bad, conf = [], set()
 
@@ -94,7 +95,7 @@ def judge(chk, cases, outs, tag, batch=6000, workers=4):
                 conforming.add(k + int(l[7:].split(",")[0]) - 1)
         return res, [k + i - 1 for i in j[0]["bad"]], conforming, len(lines)
 
-    with ThreadPoolExecutor(max_workers=2) as ex:
+    with ThreadPoolExecutor(max_workers=par) as ex:
         for res, b, cf, n in ex.map(one, range(0, len(cases), batch)):
             chk.add_tlc(res)
             chk.traces += n
@@ -201,45 +202,36 @@ def run_print(chk, bindir, tier):
     recs = [json.loads(l) for l in p.stdout.splitlines() if l.strip()]
     if not recs:
         raise core.ToolError("iohelp print produced nothing: " + p.stderr[-500:])
-    path = os.path.join(chk.work, "print.ndjson")
-    core.write_ndjson(path, recs)
-    res = core.run_tlc("IoHelpersTrace.tla", "IoHelpersPrint.cfg", workers=1, env={"TRACE": path}, timeout=900,
-                       metadir=os.path.join(chk.work, "md_print_%d" % os.getpid()))
-    core.tlc_must_pass(res, "IoHelpersTrace (print records)")
-    j = res.printed("JUDGED")
-    if len(j) != 1 or j[0]["n"] != len(recs):
-        raise core.ToolError("print records not judged: " + res.out[-1000:])
-    chk.add_tlc(res)
-    chk.traces += len(recs)
-    for i in j[0]["bad"]:
-        r = recs[i - 1]
-        kind = "lost_or_duplicated" if r["mismatch"] != -1 or r["rlen"] > r["len"] else "incomplete"
-        chk.violate({"op": "print", "kind": kind},
-                    "%s of %d bytes over a pipe (%d signals): descriptor received %d bytes, first difference at %d, newline %s, result %s" % (
-                        r["kind"], r["len"], r["signals"], r["rlen"], r["mismatch"], r["nl"], {0: "Err", 1: "Ok", 2: "discarded"}[r["ok"]]),
-                    {"mode": "print", "record": r})
     # the helpers on a File over a kernel pipe, real EINTR / short transfers
     p = core.run_cmd([os.path.join(bindir, "iohelp"), "pipe", str(chk.seed), str(3 if tier == "quick" else 40)], timeout=1800)
     precs = [json.loads(l) for l in p.stdout.splitlines() if l.strip()]
     if not precs:
         raise core.ToolError("iohelp pipe produced nothing: " + p.stderr[-500:])
-    path = os.path.join(chk.work, "pipe.ndjson")
-    core.write_ndjson(path, precs)
+    allr = recs + precs
+    path = os.path.join(chk.work, "print_pipe.ndjson")
+    core.write_ndjson(path, allr)
     res = core.run_tlc("IoHelpersTrace.tla", "IoHelpersPrint.cfg", workers=1, env={"TRACE": path}, timeout=900,
-                       metadir=os.path.join(chk.work, "md_pipe_%d" % os.getpid()))
-    core.tlc_must_pass(res, "IoHelpersTrace (pipe records)")
+                       metadir=os.path.join(chk.work, "md_print_%d" % os.getpid()))
+    core.tlc_must_pass(res, "IoHelpersTrace (print/pipe records)")
     j = res.printed("JUDGED")
-    if len(j) != 1 or j[0]["n"] != len(precs):
-        raise core.ToolError("pipe records not judged: " + res.out[-1000:])
+    if len(j) != 1 or j[0]["n"] != len(allr):
+        raise core.ToolError("print/pipe records not judged: " + res.out[-1000:])
     chk.add_tlc(res)
-    chk.traces += len(precs)
+    chk.traces += len(allr)
     for i in j[0]["bad"]:
-        r = precs[i - 1]
-        kind = "error" if r["ok"] != 1 else ("count" if r["mismatch"] == -1 and r["rlen"] == r["len"] else "lost_or_duplicated")
-        chk.violate({"op": "pipe_" + r["kind"], "kind": kind},
-                    "%s of %d bytes on a File over a pipe (%d signals): ok=%s, %d bytes arrived, first difference at %d, count %d" % (
-                        r["kind"], r["len"], r["signals"], r["ok"], r["rlen"], r["mismatch"], r["count"]),
-                    {"mode": "pipe", "record": r})
+        r = allr[i - 1]
+        if r["op"] == "print":
+            kind = "lost_or_duplicated" if r["mismatch"] != -1 or r["rlen"] > r["len"] else "incomplete"
+            chk.violate({"op": "print", "kind": kind},
+                        "%s of %d bytes over a pipe (%d signals): descriptor received %d bytes, first difference at %d, newline %s, result %s" % (
+                            r["kind"], r["len"], r["signals"], r["rlen"], r["mismatch"], r["nl"], {0: "Err", 1: "Ok", 2: "discarded"}[r["ok"]]),
+                        {"mode": "print", "record": r})
+        else:
+            kind = "error" if r["ok"] != 1 else ("count" if r["mismatch"] == -1 and r["rlen"] == r["len"] else "lost_or_duplicated")
+            chk.violate({"op": "pipe_" + r["kind"], "kind": kind},
+                        "%s of %d bytes on a File over a pipe (%d signals): ok=%s, %d bytes arrived, first difference at %d, count %d" % (
+                            r["kind"], r["len"], r["signals"], r["ok"], r["rlen"], r["mismatch"], r["count"]),
+                        {"mode": "pipe", "record": r})
     chk.extra["pipe_runs"] = len(precs)
     chk.extra["pipe_signals_sent"] = sum(r["signals"] for r in precs)
     chk.extra["print_path_runs"] = len(recs)
@@ -297,17 +289,30 @@ def run(tier):
             models[k] = []
             cases.append(c)
         models[k].append(b)
-    core.log("TLC: %d behaviours of %d cases" % (len(behaviours), len(cases)))
-    # 2. the real helpers on every case
-    outs = run_driver(chk, bindir, cases, "gen")
+    core.log("TLC: %d behaviours of %d cases (%.1fs)" % (len(behaviours), len(cases), time.time() - chk.t0))
+    # 2. the real helpers on every generated case and on seeded random long scripts
+    rng = random.Random(chk.seed)
+    rcases = random_cases(rng, 1500 if tier == "quick" else 20000)
+    ngen = len(cases)
+    allcases = cases + rcases
+    allouts = run_driver(chk, bindir, allcases, "all")
+    outs, routs = allouts[:ngen], allouts[ngen:]
+    core.log("driver done (%.1fs)" % (time.time() - chk.t0))
     # 3. TLC judges the recorded runs
-    bad, conf = judge(chk, cases, outs, "gen")
+    nb = 3 if tier == "quick" else 8
+    allbad, allconf = judge(chk, allcases, allouts, "all", batch=(len(allcases) + nb - 1) // nb, workers=3, par=3 if tier == "quick" else 4)
+    bad = [i for i in allbad if i < ngen]
+    rbad = [i - ngen for i in allbad if i >= ngen]
+    conf = {i for i in allconf if i < ngen}
+    rconf = {i - ngen for i in allconf if i >= ngen}
+    core.log("judged (%.1fs)" % (time.time() - chk.t0))
     # B1: the real call log and outcome equal one of the model's behaviours of that case
     b1 = 0
     drift = []
     for i, (c, o) in enumerate(zip(cases, outs)):
         ms = models[case_key(c)]
-        hit = any(m["calls"] == o["calls"] and m["err"] == o["err"] and m["rn"] == o["rn"] and (m["blen"] == len(o["buf"]) or c["op"] == "read_exact")
+        hit = any(m["calls"] == o["calls"] and m["err"] == o["err"] and m["rn"] == o["rn"]
+                  and (m["blen"] == len(o["buf"]) or c["op"] == "read_exact")
                   and m["pos"] == o["pos"] and (m["fam"] in ID_FAMILIES or m["buf"] == o["buf"]) for m in ms)
         if hit:
             b1 += 1
@@ -324,10 +329,6 @@ def run(tier):
                         " PANIC " + o["panic"] if o["panic"] else "", ms[0]["err"], ms[0]["rn"], ms[0]["blen"]),
                     {"case": c, "observed": o})
     # 4. random long scripts
-    rng = random.Random(chk.seed)
-    rcases = random_cases(rng, 1500 if tier == "quick" else 20000)
-    routs = run_driver(chk, bindir, rcases, "rand")
-    rbad, rconf = judge(chk, rcases, routs, "rand")
     for i in rbad:
         c, o = rcases[i], routs[i]
         chk.violate({"op": c["op"], "kind": classify(c, o, None)},
